@@ -1,4 +1,6 @@
 from .runner import M
+from .C04 import (BEFORE_DECODE_BLOCKS, CAPTURE, CAPTURE_INSIDE, DECODE, DELIVER_HEAD, DELIVER_REST, GUARD_BODY, GUARD_TEST,
+                  HELPER_METHOD, HELPER_NESTED, HELPER_UNREADABLE, REGISTER, _deeper)
 
 NODE = "src/allmydata/immutable/downloader/node.py"
 FETCH = "src/allmydata/immutable/downloader/fetcher.py"
@@ -115,6 +117,36 @@ MUTANTS = [
       "            self._start_new_segment()\n",
       "        active = self._active_segment\n        if not active or active.segnum in segnums:\n            return\n"
       "        self._active_segment = None\n        active.stop()\n        self._start_new_segment()\n", None),
+    # ---- C46.1 / C46.5: the delivery callback may leave the slot and the queue alone only when it has seen that
+    #      _active_segment is not the fetcher process_blocks read from it before the decode started (repair 189a9a9)
+    M("completion-returns-early-on-unrelated-test", NODE, DELIVER_HEAD,
+      DELIVER_HEAD + "            if not self._segment_requests:\n                return\n", "C46.1"),
+    M("completion-skips-extraction-on-unrelated-test", NODE, DELIVER_HEAD,
+      DELIVER_HEAD + "            if not self._segment_requests:\n                return\n", "C46.5"),
+    M("completion-returns-early-when-slot-empty", NODE, DELIVER_HEAD,
+      DELIVER_HEAD + "            if self._active_segment is None:\n                return\n", "C46.1"),
+    M("completion-early-exit-compares-with-value-read-after-the-gap", NODE, CAPTURE + DECODE, DECODE, "C46.1", edits=CAPTURE_INSIDE),
+    M("completion-skips-extraction-comparing-with-value-read-after-the-gap", NODE, CAPTURE + DECODE, DECODE, "C46.5",
+      edits=CAPTURE_INSIDE),
+    M("completion-guard-inverted", NODE, GUARD_TEST, "            if self._active_segment is fetcher:\n", "C46.1"),
+    M("completion-capture-clears-the-slot", NODE, CAPTURE, "        fetcher, self._active_segment = self._active_segment, None\n",
+      "C46.1"),
+    M("benign-completion-guard-nested", NODE, GUARD_TEST + GUARD_BODY + DELIVER_REST,
+      "            if self._active_segment is fetcher:\n" + _deeper(DELIVER_REST), None),
+    M("benign-completion-guard-operands-swapped", NODE, GUARD_TEST, "            if fetcher is not self._active_segment:\n", None),
+    M("benign-completion-guard-ne", NODE, GUARD_TEST, "            if not self._active_segment == fetcher:\n", None),
+    M("benign-completion-guard-flag", NODE, GUARD_TEST,
+      "            overtaken = self._active_segment is not fetcher\n            if overtaken:\n", None),
+    M("benign-completion-guard-in-nested-helper", NODE, DELIVER_HEAD + GUARD_TEST,
+      HELPER_NESTED + DELIVER_HEAD + "            if _abandoned():\n", None),
+    M("benign-completion-guard-in-method", NODE, GUARD_TEST, "            if self._overtaken(fetcher):\n", None,
+      edits=[(NODE, BEFORE_DECODE_BLOCKS, HELPER_METHOD + BEFORE_DECODE_BLOCKS)]),
+    M("completion-guard-in-unreadable-helper", NODE, DELIVER_HEAD + GUARD_TEST,
+      HELPER_UNREADABLE + DELIVER_HEAD + "            if _abandoned():\n", "ANALYSIS-ERROR"),
+    M("benign-completion-capture-as-callback-argument", NODE, DELIVER_HEAD + GUARD_TEST,
+      "        def _deliver(result, mine):\n            if self._active_segment is not mine:\n", None,
+      edits=[(NODE, REGISTER, "        d.addBoth(_deliver, fetcher)\n")]),
+    M("benign-completion-capture-after-decode-started", NODE, CAPTURE + DECODE, DECODE + CAPTURE, None),
     # ---- vanished anchor
     M("vanish-fetch-failed", NODE, "    def fetch_failed(self, sf, f):", "    def fetch_failedX(self, sf, f):", "ANALYSIS-ERROR"),
     # ---- C46.6 (wake-up discipline adopted from C03; added after seeded change C46-B)
